@@ -47,7 +47,7 @@ type c16Req struct {
 	Seed    int    `json:"value_seed"`
 	BChunks []int  `json:"body_chunks"`
 	Members int    `json:"gzip_members,omitempty"` // >1: the gzip body is a series of members (RFC 1952), the entity spans them
-	Fault   string `json:"fault"` // "", btrunc, berr, bhdr, bflip, bmislabel
+	Fault   string `json:"fault"`                  // "", btrunc, berr, bhdr, bflip, bmislabel
 	FaultAt int    `json:"fault_at_permille"`
 
 	value   *c16Entity
